@@ -3,7 +3,7 @@
 proof:  Props/C01.lean (C01_exact: cellPairs is a permutation of the brute-force minimum-image set, per axis completeness /
         uniqueness incl. exactly two cells, C01_eps, ...) about Sympler/Geom.lean; Props/C01Tables*.lean: the generated tables
         are consistent (decide), the regenerated addPair / cellDist / cutoff test ARE the functions of the general theorems
-        (C01_bridge_*), finite kernel checks of the link list built by the cellSubdivide model for 2x2x2, 3x2x2 grids
+        (C01_bridge_*), Props/C01General.lean: link lists complete and duplicate-free, outlet geometry, GridOK/OutSingle for EVERY grid the cellSubdivide model builds (loop-invariant proof, Sympler/GridLinks*.lean); the finite kernel checks for 2x2x2, 3x2x2 grids are kept as instances
 tie:    T (translate/t_cells.py regenerates Sympler/Gen/CellTablesGen.lean from cell.h / cell.cpp / manager_cell.h) and
         C: sim/corr_grid.py: every cell, link, counter and PAIR LIST of the real binary after every step = Lean model `grid`
 search: O(N^2) minimum-image reference on the observer dumps (set, multiplicity, vector, acts-on flags)
@@ -18,15 +18,17 @@ THEOREMS = ["C01_axis_nonperiodic", "C01_axis_periodic", "C01_axis_unique", "C01
 T2 = ["Sympler.C01." + t for t in ["C01_gen_tables_ok", "C01_bridge_addPair", "C01_bridge_cellDist", "C01_bridge_keep", "C01_static_checks_sound",
                                    "C01_links_complete_unique_222a", "C01_links_complete_unique_222b", "C01_links_complete_unique_322"]]
 MODULES = ["Sympler.Geom", "Sympler.GeomLemmas", "Sympler.Grid", "Sympler.GridLemmas", "Sympler.GridBuildLemmas", "Sympler.PairSearch",
-           "Sympler.Gen.CellTablesGen", "Props.C01", "Props.C01Tables", "Props.C01TablesB", "Props.C01TablesC"]
+           "Sympler.Gen.CellTablesGen", "Props.C01", "Props.C01Tables", "Props.C01TablesB", "Props.C01TablesC"] + \
+          ["Sympler.GridLinksGeo", "Sympler.GridLinksInv", "Sympler.GridLinksSpec", "Sympler.GridLinksGeomOK", "Sympler.GridLinksLemmas", "Props.C01General"]
+T3 = ["Sympler.C01." + t for t in ["C01_links_complete_unique", "C01_geometry_general", "C01_static_checks_general", "C01_static_hypotheses_general", "C01_geometry_needs_positive_box"]]     # general (all cutoffs, boxes, periodicities): loop-invariant proof about the link-list construction
 
 
 def run(ctx):
     ok, out = common.ensure_build("hooks", targets=("sympler",))
     ctx.oblige("hooked build of /repo", ok, out[-300:])
     gridcheck.translate(ctx)
-    common.lean_obligations(ctx, ["Props.C01", "Props.C01Tables", "Props.C01TablesB", "Props.C01TablesC", "Sympler.PairSearch", "symdrv"],
-                            ["Props.C01", "Props.C01Tables", "Props.C01TablesB", "Props.C01TablesC"], THEOREMS + T2, MODULES)
+    common.lean_obligations(ctx, ["Props.C01", "Props.C01Tables", "Props.C01TablesB", "Props.C01TablesC", "Props.C01General", "Sympler.PairSearch", "symdrv"],
+                            ["Props.C01", "Props.C01Tables", "Props.C01TablesB", "Props.C01TablesC", "Props.C01General"], THEOREMS + T2 + T3, MODULES)
     n = 60 if not ctx.thorough else 1500
     summ, keep = (None, None)
     if ok:
